@@ -13,6 +13,7 @@ import (
 
 	"github.com/golang/protobuf/proto"
 	"github.com/pingcap/kvproto/pkg/metapb"
+	"github.com/tikv/pd/server/config"
 	"github.com/tikv/pd/server/core"
 	"github.com/tikv/pd/server/kv"
 
@@ -28,6 +29,8 @@ var (
 )
 
 type corepkg = ec.RunCtx
+
+type configT = config.Config
 
 func marshal(m proto.Message) []byte { b, _ := proto.Marshal(m); return b }
 
